@@ -14,7 +14,7 @@ import (
 func init() {
 	register(&Spec{ID: "C08", Title: "Login succeeds exactly when the server accepted it", Run: runC08,
 		Meta: core.Meta{
-			Explanation: "Guard-dominance check (E-DOM) of Channel.Login against the acceptance script of the property statement (the required-guard table is written from the statement, not from the code). R08.1: every nil-error return of Login is dominated by the script of its flow — plain: LOGINACK asserted, Status == TDS_LOG_SUCCEED, DONE asserted, exact final test on its status; encrypted: LOGINACK asserted with Status == NEGOTIATE, MSG asserted with MsgId == TDS_MSG_SEC_ENCRYPT4, PARAMFMT asserted with exactly 3 formats, PARAMS asserted with exactly 3 fields, DONE asserted, Int4 cipher-suite field asserted with int32 value == 1, two LongBinary fields asserted with []byte values, NextPackageUntil's error nil with a callback that returns (true,nil) only under LOGINACK asserted and Status == SUCCEED, CAPABILITY asserted, Conn.Caps := that package stored, the all-zero mask test, DONE asserted, exact final test. A mask test against the zero-valued TDS_DONE_FINAL is recognised as constant and does not count. R08.2: every asserted package value comes from a NextPackage call whose error is known nil at the return. R08.3: every error-returning call in Login is checked: if it dominates a success return its error is known nil there, otherwise (loop bodies) its failure edge returns a non-nil error. R08.4: every context argument in Login (and its closure) derives from the caller's ctx, so no wait outlives it. R08.5: every comma-ok assertion in Login is satisfiable in the module's MakeInterface universe. R08.6: the all-zero capability test restarts from `true` for every capability type (the flag's loop-entry value is the constant true inside the outer loop) and its true edge returns an error. R08.7: the reply parsers tolerate every packetisation of the replies — C07's E-ERR obligation over all wire-read call sites is re-run (a parser that reports a short read as a different error makes a valid, merely fragmented acceptance fail). R08.8: the packet size the server announces is applied: every iteration of handleSpecialPackage's member loop evaluates the PACKSIZE test (no shortcut skips a member first).",
+			Explanation: "Guard-dominance check (E-DOM) of Channel.Login against the acceptance script of the property statement (the required-guard table is written from the statement, not from the code). R08.1: every nil-error return of Login is dominated by the script of its flow — plain: LOGINACK asserted, Status == TDS_LOG_SUCCEED, DONE asserted, exact final test on its status; encrypted: LOGINACK asserted with Status == NEGOTIATE, MSG asserted with MsgId == TDS_MSG_SEC_ENCRYPT4, PARAMFMT asserted with exactly 3 formats, PARAMS asserted with exactly 3 fields, DONE asserted, Int4 cipher-suite field asserted with int32 value == 1, two LongBinary fields asserted with []byte values, NextPackageUntil's error nil with a callback that returns (true,nil) only under LOGINACK asserted and Status == SUCCEED, CAPABILITY asserted, Conn.Caps := that package stored, the all-zero mask test, DONE asserted, exact final test. A mask test against the zero-valued TDS_DONE_FINAL is recognised as constant and does not count. R08.2: every asserted package value comes from a NextPackage call whose error is known nil at the return. R08.3: every error-returning call in Login is checked: if it dominates a success return its error is known nil there, otherwise (loop bodies) its failure edge returns a non-nil error. R08.4: every context argument in Login (and its closure) derives from the caller's ctx, so no wait outlives it. R08.5: every comma-ok assertion in Login is satisfiable in the module's MakeInterface universe. R08.6: the all-zero capability test restarts from `true` for every capability type (the flag's loop-entry value is the constant true inside the outer loop) and its true edge returns an error. R08.7: the reply parsers tolerate every packetisation of the replies — C07's E-ERR obligation over all wire-read call sites is re-run (a parser that reports a short read as a different error makes a valid, merely fragmented acceptance fail). R08.9: in rsaEncrypt the block returned by pem.Decode is dereferenced only under a guard that implies it is non-nil (an explicit nil test, or len(rest) == 0 for the rest exactly as Decode returned it; Login never passes an empty key). R08.8: the packet size the server announces is applied: every iteration of handleSpecialPackage's member loop evaluates the PACKSIZE test (no shortcut skips a member first).",
 			NotDecided:  "Reply histories are not explored (no peer is simulated); key sizes, packet size after login (C11) and timing are not decided.",
 			Assumptions: []string{"the acceptance script transcribes the property statement", "NextPackage returns the packages in arrival order (C02/C03)"},
 		}})
@@ -32,6 +32,7 @@ func runC08(r *core.Run) {
 	r.Rule("R08.6", "all-zero capability test is per capability type and leads to an error", 1, false)
 	r.Rule("R08.7", "the reply parsers tolerate fragmentation: every short read is ErrNotEnoughBytes (E-ERR, all call sites)", 213, true)
 	r.Rule("R08.8", "the announced packet size is applied for every PACKSIZE member", 1, false)
+	r.Rule("R08.9", "an unusable public key yields an error, not a nil dereference", 1, false)
 
 	login := p.Func("tds", "Channel", "Login")
 	nextPkg := p.Func("tds", "Channel", "NextPackage")
@@ -249,6 +250,71 @@ func runC08(r *core.Run) {
 	c08AllZero(r, login)
 	errSites(r, newErrFlow(p), "R08.7")
 	packSizeEveryMember(r, "R08.8")
+	c08PemBlock(r, "R08.9")
+}
+
+// c08PemBlock: R08.9. pem.Decode returns a nil block (and the whole input as rest) when the key holds no PEM data.
+// rsaEncrypt may touch the block only where it is known non-nil: under an explicit nil test, or after `len(rest) > 0`
+// was refuted for the UNTOUCHED rest of that Decode call (for a non-empty key a nil block means rest == key, so the
+// test catches it; Login never passes an empty key: GoValue maps an empty LONGBINARY to nil and the []byte assertion
+// rejects it).
+func c08PemBlock(r *core.Run, rule string) {
+	p := r.Prog
+	fn := p.Func("tds", "", "rsaEncrypt")
+	n := 0
+	for _, c := range core.Calls(fn) {
+		call, ok := c.(*ssa.Call)
+		if !ok || !core.IsPkgFunc(call, "encoding/pem", "Decode") {
+			continue
+		}
+		var block, rest ssa.Value
+		for _, ref := range *call.Referrers() {
+			if ex, ok := ref.(*ssa.Extract); ok {
+				if ex.Index == 0 {
+					block = ex
+				} else {
+					rest = ex
+				}
+			}
+		}
+		if block == nil {
+			continue
+		}
+		for _, ref := range *block.Referrers() {
+			fa, ok := ref.(*ssa.FieldAddr)
+			if !ok {
+				continue
+			}
+			n++
+			guarded := false
+			for _, g := range core.GuardsAt(fa) {
+				bo, ok := g.Cond.(*ssa.BinOp)
+				if !ok {
+					continue
+				}
+				if bo.X == block && core.IsNil(bo.Y) && ((bo.Op == token.NEQ && g.Pol) || (bo.Op == token.EQL && !g.Pol)) {
+					guarded = true
+				}
+				if lc, ok := bo.X.(*ssa.Call); ok && rest != nil {
+					if arg, isLen := isLenCall(lc); isLen && arg == rest {
+						k, isC := core.ConstInt64(bo.Y)
+						op, pol := bo.Op, g.Pol
+						if !pol {
+							op = map[token.Token]token.Token{token.LSS: token.GEQ, token.GEQ: token.LSS, token.GTR: token.LEQ, token.LEQ: token.GTR, token.EQL: token.NEQ, token.NEQ: token.EQL}[op]
+						}
+						if isC && ((k == 0 && (op == token.LEQ || op == token.EQL)) || (k == 1 && op == token.LSS)) {
+							guarded = true
+						}
+					}
+				}
+			}
+			r.Check(guarded, rule, "rsaEncrypt: PEM block used only where it is non-nil", fa.Pos(), "under block != nil, or len(rest) == 0 for the untouched rest of pem.Decode",
+				"the PEM block returned by pem.Decode is dereferenced without a guard that implies it is non-nil (pem.Decode returns nil when the key holds no PEM data; only `len(rest) == 0` on the rest exactly as Decode returned it, or a nil test, excludes that): a server sending an unusable key crashes Login with a nil pointer dereference")
+		}
+	}
+	if n == 0 {
+		r.Unknown(rule, "rsaEncrypt: PEM block", fn.Pos(), "no use of the block returned by pem.Decode found")
+	}
 }
 
 // c08Closure: every `return true, nil` is under assertOK(*LoginAckPackage) && Status == SUCCEED.
